@@ -84,6 +84,9 @@ type plainErr struct{ s string }
 func (e plainErr) Error() string { return e.s }
 
 func mkRej(f []string) error { // code, reasonhex, hdrhex
+	if f[0] == "ok" { // a callback that is installed and accepts
+		return nil
+	}
 	code, _ := strconv.Atoi(f[0])
 	reason := string(unhx(f[1]))
 	if code == 0 && f[0] != "r0" {
@@ -404,6 +407,27 @@ func genC09(tier string, r *rng) {
 		}
 		emitUp(cfg, buildReq("GET", "/", "HTTP/1.1", append([]hdr{{"X-A", " 1"}}, base...), "\r\n"))
 		emitUp(cfg, buildReq("GET", "/", "HTTP/1.1", withHeader(base, 1, []hdr{{"Upgrade", " nope"}}), "\r\n"))
+	}
+	// a defect FIRST, then callbacks that accept what follows (an installed OnHost / OnHeader returning nil): the
+	// verdict on the earlier line stands
+	acceptCbs := []string{"onhost:ok:-:-", "onhdr:" + hx([]byte("X-A")) + ":" + rej3, "onhost:ok:-:-,onhdr:" + hx([]byte("X-A")) + ":ok:-:-"}
+	for _, cfg := range acceptCbs {
+		for i, nm := range names {
+			if nm == "Host" {
+				continue
+			}
+			for _, v := range variants[nm][1:] {
+				// the defective header, then the others (Host among them), then application headers
+				hs := append([]hdr{{nm, v}}, withHeader(base, i, nil)...)
+				hs = append(hs, hdr{"X-B", " 1"}, hdr{"Origin", " http://example.com"})
+				emitUp(cfg, buildReq("GET", "/", "HTTP/1.1", hs, "\r\n"))
+			}
+		}
+		for _, m := range []string{"POST", "PUT"} {
+			emitUp(cfg, buildReq(m, "/", "HTTP/1.1", append(append([]hdr{}, base...), hdr{"X-B", " 1"}), "\r\n"))
+		}
+		emitUp(cfg, buildReq("GET", "/", "HTTP/1.0", append(append([]hdr{}, base...), hdr{"X-B", " 1"}), "\r\n"))
+		emitUp("onreq:"+rej1+","+cfg, buildReq("GET", "/", "HTTP/1.1", append(append([]hdr{}, base...), hdr{"X-B", " 1"}), "\r\n"))
 	}
 	// small read buffers and long lines
 	for _, rb := range []int{1, 16, 17, 64} {
